@@ -376,4 +376,13 @@ def n_for_size(t, k, f, target):
     return 0
   if t == STATS_REPLY and k == OFPST_AGGREGATE:
     return target
-  return max(0, min(max_n(t, k, f), target // unit(t, k)))
+  n = max(0, target // unit(t, k))
+  if target < 40000:
+    return n
+  while n > 0:
+    try:
+      build({"t": t, "k": k, "n": n, "f": f})
+      return n
+    except ValueError:
+      n = n * 19 // 20
+  return 0
